@@ -307,7 +307,7 @@ class ServerSet(object):
           if removed_member:
             try:
               self._on_leave(removed_member)
-            except Exception:
+            except (Exception, gevent.Timeout):
               self._log.exception('Error in OnLeave callback.')
           else:
             self._log.warn('Member %s was not found in cached set' % str(m))
@@ -315,7 +315,7 @@ class ServerSet(object):
         for m in new_members:
           try:
             self._on_join(m)
-          except Exception:
+          except (Exception, gevent.Timeout):
             self._log.exception('Error in OnJoin callback.')
       except Exception:
         self._log.exception('Error in notification worker.')
